@@ -37,8 +37,9 @@ def load():
         except Exception:
             pass
     _filtered("c09", "bus")
+    _filtered("c08", "pair")
     _filtered("c04req", "req")
-    for mod, label in [("c04rep", "rep"), ("c07", "survey"), ("c08", "pair")]:
+    for mod, label in [("c04rep", "rep"), ("c07", "survey")]:
         _try(mod, "history", label)
     return PROVIDERS
 
